@@ -132,6 +132,28 @@ def main():
                     out.write("CCASE t3-%d-%d f%d %s %s %s\n" % (a.seed, ntri, f["idx"], f["fl"], f["pol"], f["limit"] if f["limit"] else "-"))
                     out.write("P %s\nA %s\nB %s\nC %s\nPAUSE %d\nPAUSE2 %d\nQ %s\nEND\n" % (call(f, 1), call(f, 0), call(f, 0), call(f, 0), p1, p2, call(f, 0)))
                     ntri += 1
+    # two OVERLAPPING callers of one new key (both miss before either stores) in a cache with room for every key
+    # that is ever stored: afterwards every key must be served — a duplicated queue slot or a needless eviction
+    # shows as a re-execution in the probes
+    nds = 0
+    with open(a.out, "a") as out:
+        for f in allf:
+            if f["fl"] == "t" or f["sig"] != 0 or f["gates"] or f["ret"] != 0:
+                continue
+            if f["ttl"] or f["mem"] or f["cache_if"] or f["inval_on"] or f["limit"] is None or f["limit"] < 2:
+                continue
+            if nds >= (120 if a.count > 0 else 600):
+                break
+            for pause in range(1, 5):
+                for fill in ([call(f, 1)], []):
+                    out.write("CCASE ds-%d-%d f%d %s %s %d\n" % (a.seed, nds, f["idx"], f["fl"], f["pol"], f["limit"]))
+                    for p_ in fill:
+                        out.write("P %s\n" % p_)
+                    out.write("A %s\nB %s\nPAUSE %d\n" % (call(f, 0), call(f, 0), pause))
+                    if not fill:
+                        out.write("Q %s\n" % call(f, 1))
+                    out.write("Q %s\nQ %s\nEND\n" % (call(f, 1), call(f, 0)))
+                    nds += 1
     # overlapping lookups of a stored key (values whose Clone the harness can hold)
     npar = 0
     with open(a.out, "a") as out:
@@ -160,7 +182,7 @@ def main():
                 break
             out.write("STRESS st-%d-r%d f%d 4 %d 0 0 race\nEND\n" % (a.seed, nrace, f["idx"], 400 if a.count > 0 else 3000))
             nrace += 1
-    json.dump(dict(schedules=len(cases) + npar + nstress + ntri + nrace, first_call_races=nrace, enumeration=total + npar + nstress + ntri + nrace, overlapping_lookups=npar,
+    json.dump(dict(schedules=len(cases) + npar + nstress + ntri + nrace + nds, double_store_schedules=nds, first_call_races=nrace, enumeration=total + npar + nstress + ntri + nrace + nds, overlapping_lookups=npar,
                    three_caller_schedules=ntri,
                    stress_runs=nstress, op_pairs=hist), sys.stdout)
 
